@@ -407,6 +407,10 @@ func build(s Structure) (r rendered, applicable bool) {
 			return " list site { key sk; leaf sk { type string; }" + common + " " + content + " }"
 		case "case":
 			return " choice sitech { case siteca {" + common + " " + content + " } leaf other { type string; } }"
+		case "case-below-siblings":
+			// the plain siblings (and the clashing one) stand in front of the choice, the uses inside a
+			// case of it: the nodes of a case are siblings of the nodes around the choice
+			return " container site {" + common + " choice sitech { case siteca { " + content + " } leaf other2 { type string; } } }"
 		case "grouping":
 			return " container site { uses outer; }"
 		case "augment":
@@ -887,7 +891,7 @@ func run(c *engine.Ctx) {
 	}
 	var structs []Structure
 	defs := []string{"same", "import", "submodule"}
-	sites := []string{"top", "container", "list", "case", "grouping", "augment"}
+	sites := []string{"top", "container", "list", "case", "grouping", "augment", "case-below-siblings"}
 	for _, b := range bodyNames {
 		for _, nested := range []bool{false, true} {
 			for _, d := range defs {
